@@ -109,6 +109,17 @@ def monitor(ctx, extended=False):
         for a in seq:
             check_point(ctx, St, a, set(), hist=list(hist) or None)
             hist.append(list(a))
+    # a fine concentration sweep (the viewer's mixture-density box hands over arbitrary floats): consecutive queries that differ only in the fourth decimal of
+    # the concentration, lean and dense - each answer is the crossing for ITS concentration
+    for _ in range(ctx.n(60, 3000)):
+        Dp, d, eps, nu, rhol, rhos, _ = pt(ctx.rng)
+        c0 = round(ctx.rng.uniform(0.02, 0.035) if ctx.rng.random() < 0.5 else ctx.rng.uniform(0.3, 0.449), 3)
+        cs = [c0 + 0.0004, c0 - 0.0004, c0 + 0.00045] if ctx.rng.random() < 0.5 else [c0 - 0.0004, c0 + 0.0004, c0 - 0.00045]
+        hist = []
+        for c_ in cs:
+            a = (Dp, d, eps, nu, rhol, rhos, c_)
+            check_point(ctx, St, a, set(), hist=list(hist) or None)
+            hist.append(list(a))
     # beds that nearly fill the pipe (outside E): the stated clauses are evaluated there too; a missed crossing there is the listed finding
     for _ in range(ctx.n(150, 8000)):
         Dp, d, eps, nu, rhol, rhos, _ = pt(ctx.rng)
